@@ -270,6 +270,55 @@ def worker_output(p, n=4000):
     return head + txt[-n:]
 
 
+def classify_crash(txt):
+    """A worker that died of a fatal error of the Go runtime (out of memory, concurrent map access, stack overflow,
+    a signal) while running code of /repo: returns (signature, excerpt); None when the death is not attributable to the
+    code under test (then it is harness trouble, exit 2)."""
+    key = None
+    for k in ("fatal error:", "unexpected signal", "SIGSEGV", "SIGBUS"):
+        i = txt.find(k)
+        if i >= 0 and (key is None or i < key[0]):
+            key = (i, k)
+    if key is None:
+        return None
+    i = key[0]
+    first_line = txt[i:txt.find("\n", i)].strip()
+    # the stack of the goroutine that was running
+    j = txt.find("goroutine ", i)
+    if j < 0:
+        return None
+    k = txt.find("\n\n", j)
+    stack = txt[j:k if k > 0 else j + 6000]
+    frames = [l.strip() for l in stack.split("\n") if "github.com/skycoin/skycoin/src/" in l and not l.startswith("\t")]
+    if not frames:
+        return None
+    fn = frames[0]
+    fn = fn[fn.index("skycoin/skycoin/src/") + len("skycoin/skycoin/src/"):]
+    if "(" in fn:
+        fn = fn[:fn.rindex("(")]
+    return (first_line[:80] + " @ " + fn, txt[i:i + 3000])
+
+
+def crash_run(binary, jp, tier, seed, idx, scratch, tag):
+    """Run one run index alone in a fresh process; returns the crash classification of that process (or None)."""
+    out = os.path.join(scratch, "crash-%s.json" % tag)
+    job = dict(property=jp, profile="default", tier=tier, seed=seed, first=idx, stride=1 << 40, max_runs=idx + 1, budget_s=0, out=out,
+               scratch=scratch, shrink_budget=0)
+    p = run_worker(binary, job, os.path.join(scratch, "crash-job-%s.json" % tag), 900)
+    try:
+        p.communicate(timeout=900)
+    except subprocess.TimeoutExpired:
+        p.kill()
+        return None
+    if os.path.exists(out):
+        return None
+    try:
+        txt = open(p.logpath, "rb").read().decode("utf-8", "replace")
+    except OSError:
+        return None
+    return classify_crash(txt)
+
+
 def load_known():
     p = os.path.join(VERIF, "known_findings.json")
     if not os.path.exists(p):
@@ -284,10 +333,19 @@ def match_known(known, prop, v):
     return None
 
 
+def known_for_replay(prop, found):
+    """Recorded findings do not end a run during exploration (the run goes on and may find something else), so a
+    replay must be told about them too - except the one it is meant to reproduce."""
+    own = None
+    if isinstance(found.get("violation"), dict):
+        own = found["violation"].get("class", "") + "|" + found["violation"].get("signature", "")
+    return [k["class"] + "|" + k["signature"] for k in load_known() if k["property"] == prop and k["class"] + "|" + k["signature"] != own]
+
+
 def replay_once(binary, prop, tier, found, scratch, tag, jp=None):
     out = os.path.join(scratch, "replay-%s.json" % tag)
     job = dict(property=jp or prop, profile="default", tier=tier, seed=0, first=0, stride=1, max_runs=1, budget_s=0, out=out,
-               scratch=scratch, replay_tape=found["tape"] or [0], replay_seed=found["run_seed"], shrink_budget=0)
+               scratch=scratch, replay_tape=found["tape"] or [0], replay_seed=found["run_seed"], shrink_budget=0, known=known_for_replay(prop, found))
     p = run_worker(binary, job, os.path.join(scratch, "replay-job-%s.json" % tag), 600)
     try:
         p.communicate(timeout=900)
@@ -303,7 +361,8 @@ def shrink_external(binary, prop, tier, found, scratch, tag, wall_s, jp=None):
     out = os.path.join(scratch, "%s.json" % tag)
     job = dict(property=jp or prop, profile="default", tier=tier, seed=0, first=0, stride=1, max_runs=1, budget_s=0, out=out, scratch=scratch,
                replay_tape=found["tape"] or [0], replay_seed=found["run_seed"], replay_class=found["violation"]["class"],
-               replay_sig=found["violation"]["signature"], shrink_external=True, shrink_budget=250 if tier == "quick" else 1500, shrink_wall_s=wall_s)
+               replay_sig=found["violation"]["signature"], shrink_external=True, shrink_budget=250 if tier == "quick" else 1500, shrink_wall_s=wall_s,
+               known=known_for_replay(prop, found))
     p = run_worker(binary, job, os.path.join(scratch, "%s-job.json" % tag), wall_s)
     try:
         p.communicate(timeout=wall_s + 300)
@@ -378,7 +437,18 @@ def do_replay(binary, prop, path, scratch):
     r = json.load(open(path))
     if r.get("property") != prop:
         die("replay file is for property %s" % r.get("property"))
-    found = dict(tape=r["tape"], run_seed=r["run_seed"])
+    if r.get("index_replay"):
+        # the recorded run killed its process: repeat it alone by index and see whether the process dies the same way
+        crash = crash_run(binary, r.get("job_property") or prop, r.get("tier", "quick"), r["base_seed"], r["run_index"], scratch, "replay")
+        if crash:
+            print("replayed: the process died: %s" % crash[0])
+            print(crash[1][:1500])
+            if crash[0] == r["violation"]["signature"]:
+                print("VIOLATION property=%s replay=%s" % (prop, path))
+                return 1
+        print("replay did not reproduce the recorded death of the process")
+        return 0
+    found = dict(tape=r["tape"], run_seed=r["run_seed"], violation=r.get("violation"))
     attempts = r.get("replay_attempts", 1)
     for i in range(attempts):
         s = replay_once(binary, prop, r.get("tier", "quick"), found, scratch, "r%d" % i, r.get("job_property"))
@@ -386,8 +456,8 @@ def do_replay(binary, prop, path, scratch):
             die("replay run failed: %s" % (s or {}).get("harness_error"))
         for line in s.get("replay_log", [])[-40:]:
             print("  " + line)
-        if s["found"]:
-            v = s["found"][0]["violation"]
+        for fnd in s["found"]:
+            v = fnd["violation"]
             print("replayed: class=%s signature=%s" % (v["class"], v["signature"]))
             print("  " + v["detail"])
             if v["class"] == r["violation"]["class"] and v["signature"] == r["violation"]["signature"]:
@@ -450,8 +520,32 @@ def explore(binary, prop, tier, seed, budget, workers, max_runs, scratch, spec, 
             p.kill()
             die("worker %d exceeded the wall-clock watchdog" % w)
         if not os.path.exists(out):
-            print(stdout[-6000:])
-            die("worker %d wrote no summary (exit %s)" % (w, p.returncode))
+            # the process died.  A fatal error of the Go runtime raised by code of /repo (it cannot be recovered from, the
+            # node would be gone) is a finding of its own kind: the run is repeated alone in a fresh process, and if that
+            # process dies the same way the death is reported as a violation (class process-dies) with an index replay.
+            crash = None
+            try:
+                crash = classify_crash(open(p.logpath, "rb").read().decode("utf-8", "replace"))
+            except OSError:
+                pass
+            cur = None
+            if crash and os.path.exists(out + ".cur"):
+                cur = json.load(open(out + ".cur"))
+                again = crash_run(binary, jp, tier, seed, cur["run_index"], scratch, "w%d-%d" % (w, gen))
+                if not again or again[0] != crash[0]:
+                    cur = None
+            if not cur:
+                print(stdout[-6000:])
+                die("worker %d wrote no summary (exit %s)" % (w, p.returncode))
+            v = dict(property=jp, **{"class": "process-dies"}, signature=crash[0], step=0,
+                     detail="the process running the code under test died of a fatal runtime error (%s); the same run dies the same way in a fresh process" % crash[0])
+            sums.append(dict(runs=1, steps=0, sim_seconds=0, counters={}, fingerprints=[], nontrivial=[], states=[], undecided=0, samples=[], notes=[],
+                             found=[dict(violation=v, run_index=cur["run_index"], run_seed=cur["run_seed"], tape=[], orig_tape_len=0, minimised=False, shrink_runs=0,
+                                         log_hash="", log_tail=crash[1].split("\n")[:60], knobs={}, counters={}, index_replay=True)]))
+            if time.time() - t_explore < budget and restarts < 2000 and len([x for x in sums if x.get("found") and x["found"][0].get("index_replay")]) < 3:
+                restarts += 1
+                procs.append(start(w, cur["run_index"] + workers, gen + 1))
+            continue
         s = json.load(open(out))
         if s.get("harness_error"):
             die("worker %d: %s" % (w, s["harness_error"]))
@@ -518,13 +612,17 @@ def explore(binary, prop, tier, seed, budget, workers, max_runs, scratch, spec, 
                 f = dict(f, tape=m["tape"], minimised=True, shrink_runs=m.get("shrink_runs", 0), orig_tape_len=f.get("orig_tape_len", len(f["tape"])))
         # confirm in a fresh process before reporting
         ok, s, hits = False, None, 0
-        for a in range(attempts):
+        if f.get("index_replay"):
+            ok, hits, attempts = True, 1, 1  # confirmed when it was found (the run was repeated alone in a fresh process)
+            s = dict(found=[dict(log_hash="", log_tail=f.get("log_tail", []))])
+        for a in range(0 if f.get("index_replay") else attempts):
             s1 = replay_once(binary, prop, tier, f, scratch, "confirm%d-%d" % (i, a), jp)
-            if bool(s1 and not s1.get("harness_error") and s1["found"] and s1["found"][0]["violation"]["class"] == v["class"]
-                    and s1["found"][0]["violation"]["signature"] == v["signature"]):
+            match = [x for x in (s1 or {}).get("found", []) if x["violation"]["class"] == v["class"] and x["violation"]["signature"] == v["signature"]]
+            if bool(s1 and not s1.get("harness_error") and match):
                 hits += 1
                 if not ok:
-                    ok, s = True, s1
+                    # (a run may also pass recorded findings on its way: the entry that matters is the matching one)
+                    ok, s = True, dict(s1, found=match)
                 if not external:
                     break
         if not ok and spec.get("must_reproduce"):
@@ -536,6 +634,8 @@ def explore(binary, prop, tier, seed, budget, workers, max_runs, scratch, spec, 
             continue
         if not ok:
             if not external:
+                if os.environ.get("VERIF_KEEP_UNREPRODUCED"):
+                    json.dump(f, open(os.environ["VERIF_KEEP_UNREPRODUCED"], "w"))
                 die("violation %s/%s of run seed %d did not reproduce in a fresh process (replay must be exact in this engine)" % (v["class"], v["signature"], f["run_seed"]))
             # E2: the observation itself (race report with both stacks / stuck call with the goroutine dump) is the evidence; see DESIGN.md 4.2
             s = dict(found=[dict(log_hash=f.get("log_hash", ""), log_tail=f.get("log_tail", []))])
@@ -545,7 +645,7 @@ def explore(binary, prop, tier, seed, budget, workers, max_runs, scratch, spec, 
                    tape=f["tape"], original_tape_len=f["orig_tape_len"], minimised=f["minimised"], shrink_runs=f["shrink_runs"],
                    knobs=f["knobs"], fault_counts={k2: v2 for k2, v2 in f["counters"].items() if k2.startswith(("fault.", "mut.", "bm."))},
                    log_hash=s["found"][0]["log_hash"], log_tail=s["found"][0]["log_tail"],
-                   replay_attempts=spec.get("replay_attempts", 1), reproduced=f.get("reproduced", ""),
+                   replay_attempts=spec.get("replay_attempts", 1), reproduced=f.get("reproduced", ""), index_replay=bool(f.get("index_replay")),
                    replay_cmd="python3 /verif/check.py %s --replay %s" % (prop, path))
         json.dump(rec, open(path, "w"), indent=1)
         replay_paths.append(path)
